@@ -494,11 +494,11 @@ impl Regs {
     }
 
     pub fn get_h_alt(&self) -> u8 {
-        self.h
+        self.h_alt
     }
 
     pub fn get_l_alt(&self) -> u8 {
-        self.l
+        self.l_alt
     }
 
     pub fn get_iff1(&self) -> bool {
